@@ -62,12 +62,20 @@ class ErrCell:
 
 def cell_from_json(c):
     if isinstance(c, dict):
+        if "list" in c:
+            return [cell_from_json(x) for x in c["list"]]
+        if "dict" in c:
+            return {k: cell_from_json(x) for k, x in c["dict"]}
         return Cat(c["cat"], c["lv"])
     return c
 
 
 def real_from_json(c):
     if isinstance(c, dict):
+        if "list" in c:
+            return [real_from_json(x) for x in c["list"]]
+        if "dict" in c:
+            return {k: real_from_json(x) for k, x in c["dict"]}
         from coba.primitives import Categorical
         return Categorical(c["cat"], list(c["lv"]))
     return c
@@ -292,11 +300,12 @@ def eager_stage(kind, e, st):
         if op == "head":
             # a header names every column exactly once (a mapping lists the columns in order)
             if "map" in st:
-                names = [name for name, _ in st["map"]]
-                if [k for _, k in st["map"]] != list(range(n)):
-                    raise Undefined("header mapping does not list the columns in order")
-            else:
-                names = list(st["names"])
+                # a mapping names the columns in any order (name -> position), every column exactly once
+                pairs = st["map"]
+                if sorted(k for _, k in pairs if isinstance(k, int)) != list(range(n)) or len(set(nm for nm, _ in pairs)) != n or len(pairs) != n:
+                    raise Undefined("header mapping does not name every column exactly once")
+                return ED(e.vals, {name: k for name, k in pairs}, e.lab)
+            names = list(st["names"])
             if len(names) != n or len(set(names)) != n:
                 raise Undefined("header does not name every column exactly once")
             return ED(e.vals, {name: i for i, name in enumerate(names)}, e.lab)
@@ -306,6 +315,7 @@ def eager_stage(kind, e, st):
                     raise Undefined("encoder count")
                 encs = list(st["seq"])
             else:
+                hdr_in_column_order(e)
                 m = {}
                 for k, en in st["map"]:
                     m[k] = en
@@ -326,6 +336,7 @@ def eager_stage(kind, e, st):
             cols = st["cols"]
             if not cols:
                 return e
+            hdr_in_column_order(e)
             names = {i: nm for nm, i in (e.hdr or {}).items()}
             keep = [i for i in range(n) if i not in cols and not (i in names and names[i] in cols)]
             pos = {old: new for new, old in enumerate(keep)}
@@ -351,13 +362,15 @@ def eager_stage(kind, e, st):
             t = st.get("t")
             if t is None:
                 return e
-            if not any(isinstance(v, Cat) for v in e.vals):
+            if not any(isinstance(v, Cat) or has_nested_cat(v) for v in e.vals):
                 return e
             if any(isinstance(v, ErrCell) for v in e.vals):
                 raise Undefined("error cell")
             out = []
             for v in e.vals:
-                if isinstance(v, Cat):
+                if isinstance(v, (list, dict)):
+                    out.append(enc_nested(v, t))
+                elif isinstance(v, Cat):
                     hot = tuple(1 if l == v.s else 0 for l in v.lv)
                     if t == "string":
                         out.append(v.s)
@@ -447,6 +460,56 @@ def eager_stage(kind, e, st):
             out.update(tail)
             return ES(out, None, {})
     raise ValueError("stage %r" % (st,))
+
+
+def hdr_in_column_order(e):
+    """EncodeRows(mapping) and DropRows(columns) read the header map in dict order (`enumerate(first.headers)`), which is only the
+    column order for maps listed that way (every reader builds them so). For a map given in another order the stage is left outside the
+    eager definition (recorded observation, see notes): no claim."""
+    if e.hdr is not None and list(e.hdr.values()) != sorted(e.hdr.values()):
+        raise Undefined("header map not in column order before EncodeRows(mapping) / DropRows(columns)")
+
+
+def has_nested_cat(v):
+    if isinstance(v, list):
+        return any(isinstance(x, Cat) for x in v)
+    if isinstance(v, dict):
+        return any(isinstance(x, Cat) for x in v.values())
+    return False
+
+
+def enc_nested(v, t):
+    """EncodeCatRows one level down: a list / dict cell holding categoricals is encoded like a row of its own (a fresh object)"""
+    def hot(c):
+        return tuple(1 if l == c.s else 0 for l in c.lv)
+    if isinstance(v, list):
+        out = []
+        for x in v:
+            if isinstance(x, Cat):
+                if t == "string":
+                    out.append(x.s)
+                elif t == "onehot":
+                    out.extend(hot(x))
+                else:
+                    out.append(hot(x))
+            else:
+                out.append(x)
+        return out
+    out, tail = {}, {}
+    for k, x in v.items():
+        if isinstance(x, Cat):
+            if t == "string":
+                out[k] = x.s
+            elif t == "onehot":
+                for i, bit in enumerate(hot(x)):
+                    if i != 0:
+                        tail["%s_%d" % (k, bit)] = i
+            else:
+                out[k] = hot(x)
+        else:
+            out[k] = x
+    out.update(tail)
+    return out
 
 
 def pred_keep(kind, e, pred):
@@ -637,11 +700,17 @@ def eager_access(e, acc):
 
 
 # ------------------------------------------------------------------ the real code
+class RowList(list):
+    """the base rows of a table; `.sources` = the python containers they are / read from (for the source-not-modified check)"""
+    sources = None
+
+
 def base_rows(case):
     """the base rows of one table (plain lists/dicts, LazyDense/LazySparse, or what ArffReader yields)"""
     import coba.pipes.rows as R
     kind, base = case["kind"], case["base"]
-    rows = []
+    rows = RowList()
+    rows.sources = []
     if base["wrap"] == "arff":
         from coba.pipes.readers import ArffReader
         rows = list(ArffReader().filter(arff_lines(case)))
@@ -649,6 +718,7 @@ def base_rows(case):
         for raw in case["rows"]:
             if kind == "dense":
                 vals = [real_from_json(c) for c in raw]
+                rows.sources.append(vals)
                 if base["wrap"] == "plain":
                     rows.append(vals)
                 elif base["wrap"] == "tuple":
@@ -660,6 +730,7 @@ def base_rows(case):
                     rows.append(R.LazyDense(src, enc, hdr, raw_missing(kind, raw)))
             else:
                 d = {k: real_from_json(c) for k, c in raw}
+                rows.sources.append(d)
                 if base["wrap"] == "plain":
                     rows.append(d)
                 else:
@@ -719,11 +790,43 @@ def real_pred(pred):
     return lambda row: row[k] == want
 
 
+class _CustomMapping:
+    pass
+
+
+def mapping_flavour(d, flavour):
+    """the same header map as a dict / MappingProxyType / ChainMap / a user-defined collections.abc.Mapping"""
+    if flavour == "proxy":
+        import types
+        return types.MappingProxyType(d)
+    if flavour == "chain":
+        import collections
+        ks = list(d)
+        return collections.ChainMap({k: d[k] for k in ks[len(ks) // 2:]}, {k: d[k] for k in ks[:len(ks) // 2]}) if False else collections.ChainMap(dict(d))
+    if flavour == "custom":
+        from collections import abc
+
+        class M(abc.Mapping):
+            def __init__(self, d):
+                self._d = d
+
+            def __getitem__(self, k):
+                return self._d[k]
+
+            def __iter__(self):
+                return iter(self._d)
+
+            def __len__(self):
+                return len(self._d)
+        return M(d)
+    return d
+
+
 def make_filter(R, st):
     op = st["op"]
     if op == "head":
         if "map" in st:
-            return R.HeadRows({name: k for name, k in st["map"]})
+            return R.HeadRows(mapping_flavour({name: k for name, k in st["map"]}, st.get("flavour")))
         return R.HeadRows(list(st["names"]))
     if op == "encode":
         if "seq" in st:
@@ -844,14 +947,16 @@ def real_access(r, acc, e):
         return {"e": type(ex).__name__}
 
 
-TABLE_KEYS = ("kind", "base", "rows", "ri", "acc", "perm", "nonuniform")
+TABLE_KEYS = ("kind", "base", "rows", "ri", "acc", "perm", "nonuniform", "nested")
 
 
 def tables_of(case):
-    """the tables of a case as single-table cases: the main one, then `others`; all share `stages`"""
-    out = [dict({k: case[k] for k in TABLE_KEYS if k in case}, stages=case["stages"])]
-    for t in case.get("others") or []:
-        out.append(dict({k: t[k] for k in TABLE_KEYS if k in t}, stages=case["stages"]))
+    """the tables of a case as single-table cases: the main one, then `others`; all share the filter objects of `stages`;
+    a table may have stages of its own applied first by fresh filter objects (`pre`); t["stages"] = pre + shared"""
+    out = []
+    for t in [case] + list(case.get("others") or []):
+        pre = list(t.get("pre") or [])
+        out.append(dict({k: t[k] for k in TABLE_KEYS if k in t}, stages=pre + list(case["stages"]), pre=pre, shared=list(case["stages"])))
     return out
 
 
@@ -871,22 +976,31 @@ def run_real(case, f1=None, f2=None):
     except Undefined as u:
         et, eager_err = None, str(u)
     out = {"eager_err": eager_err}
+    pre = case.get("pre") or []
+    src1 = src2 = None
     try:
-        t1 = run_pipeline(f1 if f1 is not None else make_filters(case["stages"]), base_rows(case))
+        src1 = base_rows(case)
+        t1 = run_pipeline((make_filters(pre) + f1) if f1 is not None else make_filters(case["stages"]), src1)
     except Exception as ex:
         out["pipe_err"] = type(ex).__name__
         t1 = None
     try:
-        t2 = run_pipeline(f2 if f2 is not None else make_filters(case["stages"]), base_rows(case))
+        src2 = base_rows(case)
+        t2 = run_pipeline((make_filters(pre) + f2) if f2 is not None else make_filters(case["stages"]), src2)
     except Exception as ex:
         out["pipe_err"] = type(ex).__name__
         t2 = None
+    out["_src"] = (src1, src2)
     if t1 is None or t2 is None:
+        out["src_mutated"] = source_mutated(case, src1) or source_mutated(case, src2)
+        out.pop("_src")
         return out, et
     out["n"] = len(t1)
     ri = case["ri"]
     if ri >= len(t1):
         out["no_row"] = True
+        out["src_mutated"] = source_mutated(case, src1) or source_mutated(case, src2)
+        out.pop("_src")
         return out, et
     e = et[ri] if (et is not None and ri < len(et)) else None
     r1, r2 = t1[ri], t2[ri]
@@ -897,7 +1011,30 @@ def run_real(case, f1=None, f2=None):
         second[j] = real_access(r2, acc[j], e)
     out["second"] = second
     out["again"] = [real_access(r2, a, e) for a in acc]
+    out["src_mutated"] = source_mutated(case, src1) or source_mutated(case, src2)
+    out.pop("_src")
     return out, et
+
+
+def source_snapshot(rows):
+    """canonical form of the source containers behind the base rows (the plain lists / dicts themselves, or the list / dict a
+    LazyDense / LazySparse holds or loads from), nested cells included"""
+    return [canon_val(x) for x in (rows.sources or [])]
+
+
+def source_mutated(case, src):
+    """did running the pipeline / accessing rows change the source data (deep comparison with a fresh copy of it)?"""
+    if src is None or case["base"]["wrap"] == "arff":
+        return None
+    try:
+        before = source_snapshot(base_rows(case))
+        after = source_snapshot(src)
+    except Exception:
+        return None
+    for i, (b, a) in enumerate(zip(before, after)):
+        if b is not None and a is not None and b != a:
+            return "source row %d was %s and is now %s" % (i, json.dumps(b)[:200], json.dumps(a)[:200])
+    return None
 
 
 # ------------------------------------------------------------------ signatures of recorded classes
@@ -1071,7 +1208,7 @@ class C13(Property):
             "EncodeCatRows(onehot|onehot_tuple|string|None); 3-10 accesses (position incl. len and len+1, name, iter, len, keys, items, copy, "
             "headers, == same/reflected/lazy/perturbed, label, tipe, feats.<access>) on one row, the same accesses permuted and then repeated "
             "on a fresh copy; in 45 % of the cases the SAME filter objects then process one or two further tables (the first table with columns permuted / "
-            "one removed / one added, headers and base encoders moving with their column, or converted dense<->sparse), each judged against its own eager model and sent through the model's `session` in one request (theorem filter_stateless); 4 % of the multi-row dense tables are jagged (flag nonuniform: only the first-row model is compared); non-trivial = at least one stage or a lazy base, and at least 3 accesses with an eager value; distinct by canonical JSON")
+            "one removed / one added, headers and base encoders moving with their column, or converted dense<->sparse), each judged against its own eager model and sent through the model's `session` in one request (theorem filter_stateless); 4 % of the multi-row dense tables are jagged (flag nonuniform: only the first-row model is compared); 6 % of the cases are 2-3 dense tables that differ only in the header map (own HeadRows(list|mapping in dict/MappingProxyType/ChainMap/custom Mapping flavours), shared LabelRows, by-name access on feats), 5 % have cells that are lists/dicts holding categoricals under EncodeCatRows ((B) only); every case compares its source data deeply before/after; non-trivial = at least one stage or a lazy base, and at least 3 accesses with an eager value; distinct by canonical JSON")
     trusted_base = [
         "cells are small ints, decimal-integer strings, short words, '?', '', None and Categoricals; float() of ARFF numerics is modelled on "
         "integer literals only (an integer-valued float: equal to the int, str() gives 'N.0'; compared as an exact rational)",
@@ -1202,7 +1339,7 @@ class C13(Property):
                 if kind == "dense":
                     if rng.chance(0.25):
                         pairs = [[new[i], i] for i in range(k)]
-                        stages.append({"op": "head", "map": pairs})
+                        stages.append({"op": "head", "map": pairs, "flavour": rng.wchoice([(3, None), (2, "proxy"), (2, "chain"), (2, "custom")])})
                     else:
                         stages.append({"op": "head", "names": new})
                 else:
@@ -1214,7 +1351,7 @@ class C13(Property):
                         stages.append({"op": "head", "names": byidx})
                     else:
                         pairs = [[new[j], keys[j]] for j in range(k)]
-                        stages.append({"op": "head", "map": rng.shuffle(pairs)})
+                        stages.append({"op": "head", "map": rng.shuffle(pairs), "flavour": rng.wchoice([(3, None), (2, "proxy"), (2, "chain"), (2, "custom")])})
                     cur_raw = list(keys)
                 cur_names = new
             elif op == "encode":
@@ -1529,7 +1666,115 @@ class C13(Property):
         t["perm"] = rng.shuffle(list(range(len(acc))))
         return t
 
+    # -------------------------------------------------------------- tables that differ only in their header map
+    def gen_remap_case(self, rng):
+        """dense tables with the same column names in the same dict order and the same label position, but different name -> column
+        maps (HeadRows(list) vs HeadRows(mapping) in several Mapping flavours), each headed by filter objects of its own, then one shared
+        LabelRows; by-name access on the row and on its feats"""
+        n = rng.randint(3, 5)
+        names = rng.sample(NAMES, n)
+        lab = rng.below(n)
+        flav = lambda: rng.wchoice([(3, None), (2, "proxy"), (2, "chain"), (2, "custom")])
+
+        def table(perm, first):
+            nrows = rng.randint(1, 3)
+            rows = [["%s%d" % (rng.choice("xyz"), rng.below(10)) for _ in range(n)] for _ in range(nrows)]
+            base = {"wrap": "plain"} if rng.chance(0.5) else {"wrap": "lazy", "loader": rng.chance(0.5)}
+            if perm is None:
+                pre = [{"op": "head", "names": list(names)}] if rng.chance(0.6) else [{"op": "head", "map": [[names[j], j] for j in range(n)], "flavour": flav()}]
+            else:
+                pre = [{"op": "head", "map": [[names[j], perm[j]] for j in range(n)], "flavour": flav()}]
+            acc = []
+            for _ in range(rng.randint(4, 8)):
+                r = rng.below(10)
+                nm = rng.choice(names)
+                if r < 4:
+                    acc.append({"a": "feats", "sub": {"a": "name", "k": nm}})
+                elif r < 5:
+                    acc.append({"a": "feats", "sub": {"a": "headers"}})
+                elif r < 7:
+                    acc.append({"a": "name", "k": nm})
+                elif r < 8:
+                    acc.append({"a": "headers"})
+                elif r < 9:
+                    acc.append({"a": "label"})
+                else:
+                    acc.append({"a": "feats", "sub": {"a": "iter"}})
+            return {"kind": "dense", "base": base, "rows": rows, "pre": pre, "ri": rng.below(nrows), "acc": acc, "perm": rng.shuffle(list(range(len(acc))))}
+
+        def perm_fixing(i):
+            rest = [j for j in range(n) if j != i]
+            sh = rng.shuffle(rest)
+            p = list(range(n))
+            for a, b in zip(rest, sh):
+                p[a] = b
+            return p
+        stages = []
+        if rng.chance(0.3):
+            stages.append({"op": "encode", "seq": [rng.choice(["id", "dbl", "str"]) for _ in range(n)]})
+        stages.append({"op": "label", "k": names[lab] if rng.chance(0.6) else lab, "t": rng.choice(["c", "r", None])})
+        order = [None] + [perm_fixing(lab) for _ in range(rng.randint(1, 2))]
+        order = rng.shuffle(order)
+        tabs = [table(p, i == 0) for i, p in enumerate(order)]
+        case = dict(tabs[0], stages=stages, others=tabs[1:])
+        return case
+
+    # -------------------------------------------------------------- rows whose cells are lists / dicts holding categoricals
+    def gen_nested_case(self, rng):
+        """EncodeCatRows one level down: cells that are lists or dicts with a Categorical inside; (B) only (nested cells are not in the
+        Lean model); the source table is compared deeply before / after"""
+        ncols = rng.randint(2, 4)
+        shapes = []
+        for j in range(ncols):
+            shapes.append(rng.wchoice([(3, "int"), (2, "word"), (3, "list"), (2, "dict")]))
+        if not any(x in ("list", "dict") for x in shapes):
+            shapes[rng.below(ncols)] = rng.choice(["list", "dict"])
+        lvs = [rng.choice([["p", "q"], ["p", "q", "r"]]) for _ in range(ncols)]
+        inner = [rng.below(3) for _ in range(ncols)]
+
+        def cell(j):
+            sh = shapes[j]
+            if sh == "int":
+                return rng.choice([0, 1, 5, -2])
+            if sh == "word":
+                return rng.choice(WORDS)
+            c = {"cat": rng.choice(lvs[j]), "lv": list(lvs[j])}
+            if sh == "list":
+                items = [rng.choice([0, 7, "x"]) for _ in range(inner[j])]
+                pos = min(inner[j], 1)
+                return {"list": items[:pos] + [c] + items[pos:]}
+            c2 = {"cat": rng.choice(["p", "q"]), "lv": ["p", "q"]}
+            return {"dict": [["u", c2], ["v", rng.choice([3, "y"])]][:1 + (inner[j] > 0)]}
+        nrows = rng.randint(1, 3)
+        rows = [[cell(j) for j in range(ncols)] for _ in range(nrows)]
+        base = rng.wchoice([(3, {"wrap": "plain"}), (2, {"wrap": "tuple"}), (2, {"wrap": "lazy", "loader": rng.chance(0.5)})])
+        stages = []
+        if rng.chance(0.3):
+            stages.append({"op": "head", "names": rng.sample(NAMES, ncols)})
+        stages.append({"op": "enccat", "t": rng.choice(["onehot", "onehot_tuple", "string"])})
+        acc = []
+        for _ in range(rng.randint(3, 7)):
+            a = rng.wchoice([(4, "pos"), (3, "iter"), (2, "copy"), (2, "len"), (2, "eq")])
+            if a == "pos":
+                acc.append({"a": "pos", "i": rng.below(ncols + 1)})
+            elif a == "eq":
+                acc.append({"a": "eq", "o": rng.choice(["same", "refl", "diff"]), "h": rng.below(30)})
+            else:
+                acc.append({"a": a})
+        case = {"kind": "dense", "base": base, "rows": rows, "stages": stages, "ri": rng.below(nrows), "acc": acc,
+                "perm": rng.shuffle(list(range(len(acc)))), "nested": True}
+        if rng.chance(0.4):
+            # a second table through the same EncodeCatRows object
+            case["others"] = [{"kind": "dense", "base": dict(base), "rows": [[cell(j) for j in range(ncols)] for _ in range(rng.randint(1, 2))],
+                               "ri": 0, "acc": list(acc), "perm": list(range(len(acc))), "nested": True}]
+        return case
+
     def generate(self, rng, tier):
+        r = rng.below(100)
+        if r < 6:
+            return self.gen_remap_case(rng)
+        if r < 11:
+            return self.gen_nested_case(rng)
         case = self.make_case(rng, tier)
         if (case["kind"] == "dense" and case["base"]["wrap"] in ("plain", "tuple", "lazy") and len(case["rows"]) > 1
                 and len(case["rows"][0]) > 1 and rng.chance(0.04)):
@@ -1609,6 +1854,28 @@ class C13(Property):
         c = mk("dense", plain, [[1, {"cat": "q", "lv": ["p", "q", "r"]}, 2]], [{"op": "enccat", "t": "onehot"}], full_d)
         c["others"] = [tab("dense", plain, [[{"cat": "p", "lv": ["p", "q"]}, 5]], full_d), tab("dense", plain, [[7, 8, 9, 10]], full_d)]
         cs.append(c)
+        # tables that differ only in the header map (same names, same dict order, same label position, other columns); Mapping flavours
+        xyz = [{"a": "feats", "sub": {"a": "name", "k": "x"}}, {"a": "feats", "sub": {"a": "name", "k": "y"}}, {"a": "feats", "sub": {"a": "headers"}},
+               {"a": "name", "k": "x"}, {"a": "name", "k": "z"}, {"a": "headers"}, {"a": "label"}, {"a": "feats", "sub": {"a": "iter"}}]
+        c = mk("dense", plain, [["10", "20", "30"]], [{"op": "label", "k": "z", "t": "c"}], xyz)
+        c["pre"] = [{"op": "head", "names": ["x", "y", "z"]}]
+        c["others"] = [dict(tab("dense", plain, [["10", "20", "30"]], xyz), pre=[{"op": "head", "map": [["x", 1], ["y", 0], ["z", 2]]}]),
+                       dict(tab("dense", {"wrap": "lazy", "loader": True}, [["10", "20", "30"]], xyz), pre=[{"op": "head", "map": [["x", 1], ["y", 0], ["z", 2]], "flavour": "proxy"}])]
+        cs.append(c)
+        for fl in (None, "proxy", "chain", "custom"):
+            cs.append(mk("sparse", plain, [[[3, "1"], [7, "2"]]], [{"op": "head", "map": [["a", 3], ["b", 7]], "flavour": fl}], full_s))
+            cs.append(mk("dense", plain, [["1", "2", "3"]], [{"op": "head", "map": [["a", 2], ["b", 0], ["c", 1]], "flavour": fl}, {"op": "label", "k": "b", "t": "r"}], full_d + lab_d))
+        # EncodeCatRows one level down: the source table must stay what it was
+        ca = {"cat": "a", "lv": ["a", "b"]}
+        cb = {"cat": "b", "lv": ["a", "b"]}
+        for t in ("string", "onehot", "onehot_tuple"):
+            nest = mk("dense", plain, [[1, {"list": [ca, 2]}], [3, {"list": [cb, 4]}]], [{"op": "enccat", "t": t}],
+                      [{"a": "iter"}, {"a": "pos", "i": 1}, {"a": "copy"}, {"a": "eq", "o": "same"}], 1)
+            nest["nested"] = True
+            cs.append(nest)
+            nest = mk("dense", {"wrap": "lazy", "loader": False}, [[{"dict": [["u", ca], ["v", 3]]}, "x"]], [{"op": "enccat", "t": t}], [{"a": "iter"}, {"a": "pos", "i": 0}])
+            nest["nested"] = True
+            cs.append(nest)
         # rows that do not look like the first row: only the first-row model (tableD1) is compared
         nu = mk("dense", plain, [[{"cat": "p", "lv": ["p", "q"]}, 1], [None, 2], [3, {"cat": "q", "lv": ["p", "q"]}]], [{"op": "enccat", "t": "string"}],
                 [{"a": "iter"}, {"a": "pos", "i": 0}, {"a": "pos", "i": 1}, {"a": "len"}], 1)
@@ -1660,8 +1927,12 @@ class C13(Property):
             reqs = [None] * len(tabs)
             if driver is not None:
                 # one request: the model's `session` sends the tables through one set of filter objects too (theorem filter_stateless)
-                reqs = [to_model(t, et, real.get("n")) for t, (real, et) in zip(tabs, runs)]
-                answers = driver.ask({"tables": reqs, "stages": case["stages"]})
+                reqs = [dict(to_model(t, et, real.get("n")), pre=t["pre"]) for t, (real, et) in zip(tabs, runs)]
+                if any(t.get("nested") for t in tabs):
+                    answers, reqs = [None] * len(tabs), [None] * len(tabs)
+                    driver = None
+                else:
+                    answers = driver.ask({"tables": reqs, "stages": case["stages"]})
             for idx, (t, (real, et)) in enumerate(zip(tabs, runs)):
                 o = self.eval_table(t, real, et, driver, answers[idx], reqs[idx])
                 if idx > 0:
@@ -1717,6 +1988,12 @@ class C13(Property):
         bsig = [None] * nacc       # (B) failure signature per access
         exps = [UNDEF] * nacc
         tfail = None               # table-level (B) failure
+        if case.get("nested"):
+            tags.append("nested-cells")
+            driver = None       # lists / dicts as cell values are not in the Lean model: (B) only
+        if real.get("src_mutated"):
+            fails.append(BF("S", "running the pipeline and accessing its rows modified the source table: %s; stages %s" % (real["src_mutated"], json.dumps(case["stages"])),
+                            "%s:source-modified:%s" % (kind, "+".join(sorted(set(st["op"] for st in case["stages"]))))))
         if real.get("eager_err"):
             tags.append("eager-undefined")
         if "pipe_err" in real:
